@@ -401,8 +401,12 @@ def shrink(scen):
             if f["burst"] > 1 and f["burst"] < 100:
                 c = copy.deepcopy(s)
                 c["faults"][j]["burst"] = f["burst"] // 2
+                if c["config"] == "exhaust":
+                    c["config"] = "transient"      # a shorter burst no longer uses the retries up: the call is expected to succeed
                 yield c
     for c in generic_shrink(scen, list_keys=("faults", "graph"), dict_keys=(), extra=extra):
+        if not c["faults"] and c["config"] != "fault_free":
+            c["config"] = "fault_free"             # the expectation follows the schedule that is left
         # keep the generator's invariant: at least one typing triple (an endpoint without any class is a different, trivial case)
         if gen.classes_of([gen.T(t) for t in c["graph"]], c["options"].get("instantiation_property", gen.RDF_TYPE)):
             yield c
